@@ -580,4 +580,28 @@ def lossy2f (fv : FloatOf) (g : AGate) : Bool :=
 
 def mapInOrder (c : Circ) : Bool := c.qmap.map (·.2) == List.range c.numQubits
 
+/-- gate classes each object exporter has a branch for -/
+def qiskitExportable : GClass → Bool
+  | .I => false
+  | .MCtrl g _ => g == "X" || g == "Z"
+  | _ => true
+
+def cirqExportable : GClass → Bool
+  | .P => false
+  | .MCtrl g _ => g == "X" || g == "Z"
+  | _ => true
+
+def sympyExportable : GClass → Bool
+  | .X | .H | .CX | .Swap | .CCX | .Barrier | .Nop => true
+  | .MCX n => n != 0
+  | _ => false
+
+/-- the emitted declaration consists of readable tokens (decidable; holds whenever the qubit and
+circuit names and parameter texts contain no blank, newline or parenthesis) -/
+def qasmReadable (q : Quirks) (fv : FloatOf) (c : Circ) : Bool :=
+  tokenOK c.name && (qasmFormals q c).all tokenOK &&
+  match qasmBody q fv c with
+  | .ok body => body.all lineOK
+  | .error _ => false
+
 end QV.Export
